@@ -14,13 +14,16 @@ def dets_only(*names):
             return any(i.split(":")[0] in ns for i in items)
         if part.startswith("DIFF det:"):
             return part[len("DIFF det:"):].split()[0] in ns
+        if part.startswith("DIFF closed-detect") or part.startswith("DIFF htmltok") or part.startswith("DIFF xmlinst"):
+            return False   # consequences of some model's difference; the specific DIFF of that model is what counts
         return True
     return f
 
 
 def walk_only(part, op):
     """relevant: the walk / tree shape, not individual detector models"""
-    return not (part.startswith("DIFF verdicts ") or part.startswith("DIFF det:") or part.startswith("DIFF leaf"))
+    return not (part.startswith("DIFF verdicts ") or part.startswith("DIFF det:") or part.startswith("DIFF leaf")
+                or part.startswith("DIFF closed-detect") or part.startswith("DIFF htmltok") or part.startswith("DIFF xmlinst"))
 
 
 def walk_not_shape(part, op):
